@@ -199,6 +199,27 @@ void run_C10(void) {
             case_end(ell >= 1);
           }
     }
+  // every length 0..10000 for every kernel flavour (blocks of 250 lengths per case; quick tier: see below)
+  for (int k = 0; k < N_KERNELS; k++)
+    for (int avx2 = 0; avx2 <= 1; avx2++) {
+      if (!q120_kernel_has((q120_kernel_t)k, avx2)) continue;
+      for (uint64_t e0 = 0; e0 <= 10000; e0 += 250) {
+        char key[128];
+        snprintf(key, sizeof key, "%s_%s|every-ell", q120_kernel_name[k], avx2 ? "avx2" : "ref");
+        if (!case_begin(key, "ell=%" PRIu64 "..%" PRIu64, e0, e0 + 249 > 10000 ? (uint64_t)10000 : e0 + 249)) continue;
+        uint64_t lanes = 0, n = 0;
+        for (uint64_t ell = e0; ell < e0 + 250 && ell <= 10000; ell++) {
+          // quick tier: the lengths next to every multiple of 64 (where a blocked / unrolled loop changes regime); thorough: all
+          if (!th && ((ell + 1) & 63) > 2) continue;
+          n++;
+          lanes += q120_product_check((q120_kernel_t)k, avx2, ell, (int)((ell + k) % QF_N), (int)((ell / 7 + avx2) % QF_N), crng(), (unsigned)ell);
+        }
+        cnt("product_lanes_checked", lanes);
+        cnt("exhaustive_ell_values", n);
+        sample("%" PRIu64 " consecutive lengths, %" PRIu64 " lanes congruent", n, lanes);
+        case_end(1);
+      }
+    }
   // sampled lengths in [0, 10000]
   for (unsigned t = 0; t < (th ? 30000u : 1000u); t++) {
     uint64_t h = mix64(t * 977 + 5);
